@@ -141,6 +141,10 @@ protected:
             auto level_begin = segments.begin() + levels_offsets[l];
             auto pos = std::min<size_t>((*it)(key), std::next(it)->intercept);
             auto lo = level_begin + PGM_SUB_EPS(pos, EpsilonRecursive + 1);
+#ifdef PGM_INDEX_VERIF
+            auto verif_scan_start = size_t(lo - level_begin);
+            auto verif_window_end = size_t(0);
+#endif
 
             static constexpr size_t linear_search_threshold = 8 * 64 / sizeof(Segment);
             if constexpr (EpsilonRecursive <= linear_search_threshold) {
@@ -151,7 +155,14 @@ protected:
                 auto level_size = levels_offsets[l + 1] - levels_offsets[l] - 1;
                 auto hi = level_begin + PGM_ADD_EPS(pos, EpsilonRecursive, level_size);
                 it = std::prev(std::upper_bound(lo, hi, key));
+#ifdef PGM_INDEX_VERIF
+                verif_window_end = size_t(hi - level_begin);
+#endif
             }
+#ifdef PGM_INDEX_VERIF
+            if (::pgm::verif::level_hook)
+                ::pgm::verif::level_hook(l, pos, verif_scan_start, size_t(it - level_begin), verif_window_end);
+#endif
         }
         return it;
     }
